@@ -13,6 +13,7 @@
 #include <sys/resource.h>
 #include <cstdio>
 #include <fstream>
+#include <functional>
 #include <sstream>
 #include <set>
 #include "json.h"
@@ -29,6 +30,7 @@ struct RunResult {
 	uint64_t nt = 0;        // non-trivial-case key (0 = trivial)
 	J counters = J::obj();  // flat name -> int, summed by the driver
 	std::vector<int> tape;  // recorded schedule (only when the plan asks for it)
+	std::string plan_sample; // batch runs whose plan was generated in the forked child: the beginning of the plan text, for the evidence samples
 	void fail(const std::string &c,const std::string &m,const std::string &f = "") { if(ok) { ok = false; cls = c; msg = m; fp = f.empty() ? c : f; } }
 };
 
@@ -37,6 +39,7 @@ struct Engine {
 	virtual J generate(uint64_t seed,const std::string &prop,bool thorough) = 0;
 	virtual RunResult run(const J &plan) = 0;           // pure function of the plan and the code
 	virtual bool fork_per_run(const J &plan) { (void)plan; return false; }
+	virtual bool always_forks() { return false; }       // every run of this engine is forked: the batch driver lets the child generate the plan too, so that the driver's own heap stays as pristine as that of a confirming process (address-ordered containers in the code under test)
 	virtual bool shrink_skip_key(const std::string &k) { return k.size() >= 4 && k.compare(k.size()-4,4,"seed") == 0; }
 };
 
@@ -56,8 +59,8 @@ static int g_result_fd = -1;        // child: where the result JSON goes
 static bool g_in_child = false;
 static std::string g_scratch;
 
-inline J result_json(const RunResult &r){ J j = J::obj(); if(!r.tape.empty()){ J t = J::arr(); for(int x:r.tape) t.push(x); j["tape"] = t; } j["ok"] = r.ok; j["cls"] = r.cls; j["msg"] = r.msg; j["fp"] = r.fp; j["hash"] = (unsigned long long)r.hash; j["nt"] = (unsigned long long)r.nt; j["counters"] = r.counters; return j; }
-inline RunResult result_from(const J &j){ RunResult r; { const J &t = j.get("tape"); for(size_t i=0;i<t.size();i++) r.tape.push_back((int)t.a[i].as_int()); } r.ok = j.geti("ok"); r.cls = j.gets("cls"); r.msg = j.gets("msg"); r.fp = j.gets("fp"); r.hash = (uint64_t)j.geti("hash"); r.nt = (uint64_t)j.geti("nt"); r.counters = j.get("counters"); return r; }
+inline J result_json(const RunResult &r){ J j = J::obj(); if(!r.tape.empty()){ J t = J::arr(); for(int x:r.tape) t.push(x); j["tape"] = t; } j["ok"] = r.ok; j["cls"] = r.cls; j["msg"] = r.msg; j["fp"] = r.fp; j["hash"] = (unsigned long long)r.hash; j["nt"] = (unsigned long long)r.nt; j["counters"] = r.counters; if(!r.plan_sample.empty()) j["plan_sample"] = r.plan_sample; return j; }
+inline RunResult result_from(const J &j){ RunResult r; { const J &t = j.get("tape"); for(size_t i=0;i<t.size();i++) r.tape.push_back((int)t.a[i].as_int()); } r.ok = j.geti("ok"); r.cls = j.gets("cls"); r.msg = j.gets("msg"); r.fp = j.gets("fp"); r.hash = (uint64_t)j.geti("hash"); r.nt = (uint64_t)j.geti("nt"); r.counters = j.get("counters"); r.plan_sample = j.gets("plan_sample"); return r; }
 
 #ifdef VERIF_COV
 extern "C" void __gcov_dump(void);
@@ -76,7 +79,7 @@ inline void fatal_cb(const char *cls,const std::string &msg){
 }
 
 // run one plan in a forked child of this (pristine) process
-inline RunResult run_forked(Engine &e,const J &plan,int timeout_s = 40){   // a run that spins outside the simulator (never reaching an intercepted call) is killed and reported as a real-time hang
+inline RunResult run_forked(Engine &e,const J &plan_in,int timeout_s = 40,const std::function<J()> *gen = nullptr){   // a run that spins outside the simulator (never reaching an intercepted call) is killed and reported as a real-time hang
 	int pfd[2]; if(pipe(pfd) != 0) { RunResult r; r.fail("machinery","pipe failed"); return r; }
 	std::string errf = g_scratch + "/stderr." + std::to_string(getpid());
 	fflush(stdout); fflush(stderr);
@@ -87,7 +90,7 @@ inline RunResult run_forked(Engine &e,const J &plan,int timeout_s = 40){   // a 
 		// the limit is on the CPU time of the run (a run spinning outside the simulator burns it), so that a loaded machine does not turn slow runs into "hangs";
 		// a generous wall-clock alarm stays as the backstop for a run that blocks in a real system call
 		{ int lim = getenv("VERIF_RUN_TIMEOUT") ? atoi(getenv("VERIF_RUN_TIMEOUT")) : timeout_s; struct rlimit rl; rl.rlim_cur = (rlim_t)lim; rl.rlim_max = (rlim_t)lim + 5; setrlimit(RLIMIT_CPU,&rl); alarm((unsigned)lim * 8); }
-		RunResult r;
+		RunResult r; J generated; if(gen) generated = (*gen)(); const J &plan = gen ? generated : plan_in;
 		{ const J &sch = plan.get("sched"); if(sch.is_obj()){ size_t len = (size_t)std::max<int64_t>(0,std::min<int64_t>(sch.geti("len"),50000000)); std::vector<int> t(len,simk::SCHED_DEFAULT); const J &sw = sch.get("switches"); for(size_t i=0;i<sw.size();i++) if(sw.a[i].size() >= 2){ int64_t at = sw.a[i].a[0].as_int(); if(at >= 0 && (size_t)at < len) t[(size_t)at] = (int)sw.a[i].a[1].as_int(); } simk::set_guided_tape(t); }
 		  if(plan.geti("record_schedule")) simk::set_record_schedule(true); }
 		try { r = e.run(plan); }
@@ -95,6 +98,7 @@ inline RunResult run_forked(Engine &e,const J &plan,int timeout_s = 40){   // a 
 		if(plan.geti("record_schedule")) r.tape = simk::recorded_schedule();
 		for(auto &kv:simk::probes()) r.counters["probe:" + kv.first] = (long long)kv.second;
 		{ const std::string &t = simk::trace_text(); if(!t.empty()) r.msg += "\nTRACE(tail):\n" + (t.size() > 12000 ? t.substr(t.size()-12000) : t); }
+		if(gen){ r.plan_sample = plan.str(); if(r.plan_sample.size() > 1500) r.plan_sample = r.plan_sample.substr(0,1500) + "..."; }
 		std::string s = result_json(r).str();
 		size_t off = 0; while(off < s.size()){ ssize_t n = ::write(pfd[1],s.data()+off,s.size()-off); if(n <= 0) break; off += n; }
 		VERIF_COV_DUMP();
@@ -247,13 +251,15 @@ inline int main_impl(int argc,char **argv,Engine &e,const char *engine_name){
 			std::string sl = std::to_string(idx) + " " + std::to_string(s); g_cur_seed_line = &sl;
 			printf("S %s\n",sl.c_str()); fflush(stdout);
 			runner_idx = idx;
-			J plan = e.generate(s,prop,thorough);
-			RunResult r;
-			if(e.fork_per_run(plan)) r = run_forked(e,plan);
+			J plan; RunResult r; bool child_generates = e.always_forks();
+			if(child_generates){ std::function<J()> g = [&]{ return e.generate(s,prop,thorough); }; r = run_forked(e,plan,40,&g); }
+			else plan = e.generate(s,prop,thorough);
+			if(child_generates){}
+			else if(e.fork_per_run(plan)) r = run_forked(e,plan);
 			else { try { r = e.run(plan); } catch(std::exception const &ex){ r.fail("harness-exception",ex.what()); } for(auto &kv:simk::probes()) r.counters["probe:" + kv.first] = (long long)kv.second; }
 			runs++;
 			if(r.counters.t == J::OBJ) for(auto &kv:r.counters.o) sums[kv.first] += kv.second.as_int();
-			if(samples.a.size() < 2 || (r.nt && samples.a.size() < 3)){ std::string ps = plan.str(); if(ps.size() > 1500) ps = ps.substr(0,1500) + "..."; samples.push(J(ps)); }
+			if(samples.a.size() < 2 || (r.nt && samples.a.size() < 3)){ std::string ps = child_generates ? r.plan_sample : plan.str(); if(ps.size() > 1500) ps = ps.substr(0,1500) + "..."; samples.push(J(ps)); }
 			if(r.ok) printf("R %s ok %016llx %016llx\n",sl.c_str(),(unsigned long long)r.hash,(unsigned long long)r.nt);
 			else { viol++; if(classes.insert(r.cls).second || viol <= 3) printf("V %s %s\n",sl.c_str(),result_json(r).str().c_str()); else printf("v %s %s\n",sl.c_str(),r.cls.c_str()); }
 			fflush(stdout);
